@@ -153,6 +153,34 @@ fn main() {
           }
           ok
         }
+        "LG" => {
+          // bounded LINGER towards a stalled inproc consumer: how long does close() take, when do the actors go?
+          let pull = ctx.socket(SocketType::Pull).unwrap();
+          util::set_i32(&pull, opt::RCVHWM, 4).await;
+          let ep = util::bind_fresh(&pull, util::Transport::Inproc).await.unwrap();
+          let push = ctx.socket(SocketType::Push).unwrap();
+          util::set_i32(&push, opt::SNDHWM, 4).await;
+          util::set_i32(&push, opt::SNDTIMEO, 0).await;
+          util::set_i32(&push, opt::LINGER, 300).await;
+          let _ = push.connect(&ep).await;
+          tokio::time::sleep(Duration::from_millis(80)).await;
+          let mut acc = 0;
+          for _ in 0..20 {
+            if push.send(util::msg(vec![1u8; 100], false)).await.is_ok() {
+              acc += 1;
+            }
+          }
+          let la0 = rzmq::verif::live_actors(&ctx);
+          let t0 = Instant::now();
+          let _ = push.close().await;
+          println!("accepted {}; close() took {:?}; live actors before {} / right after {}", acc, t0.elapsed(), la0, rzmq::verif::live_actors(&ctx));
+          for _ in 0..12 {
+            tokio::time::sleep(Duration::from_millis(100)).await;
+            println!("  +{:?}: live actors {} registered sockets {}", t0.elapsed(), rzmq::verif::live_actors(&ctx), rzmq::verif::registered_sockets(&ctx));
+          }
+          let _ = tokio::time::timeout(Duration::from_secs(5), ctx.term()).await;
+          true
+        }
         "Q" => {
           // does ReadyPipeQueue::close() release a blocked pop() while a sender clone is still alive?
           let q = std::sync::Arc::new(rzmq::verif::Rpq::<u32>::new(4));
